@@ -53,8 +53,14 @@ Definition mutate_directory (f : fs) (m : mutation) : fres fs :=
 
 Definition ensure_parent (f : fs) (p : path) : fres fs := mkdirall maxl f (pdir p) mut_parent_perm.
 
+(* mutateEmptyFile's [target]: mut.Path as written today (a trailing slash then
+   makes filepath.Dir keep every component and filepath.Base repeat the last
+   one: finding C13-F6), filepath.Clean(mut.Path) once fixes/C13-F6.patch is in;
+   which of the two is read from the source *)
+Definition empty_file_target (s : string) : path :=
+  if empty_file_path_cleaned then pclean (path_of s) else path_of s.
 Definition mutate_empty_file (f : fs) (m : mutation) : fres fs :=
-  let p := path_of (m_path m) in
+  let p := empty_file_target (m_path m) in
   fdo f1 <- ensure_parent f p; create_write maxl f1 p "".
 
 Definition mutate_hard_link (f : fs) (m : mutation) : fres fs :=
